@@ -21,6 +21,7 @@ import (
 	"encoding/json"
 	"fmt"
 	"io"
+	"math"
 	"net"
 	"sync"
 	"sync/atomic"
@@ -456,8 +457,48 @@ func (ep *ExportingProcess) dataRecSanityCheck(rec entities.Record) error {
 	if rec.GetFieldCount() != uint16(len(ep.templatesMap[templateID].elements)) {
 		return fmt.Errorf("process: field count of data does not match templateID %d", templateID)
 	}
+	// Encoding errors are only logged when the record buffer is built, so values that cannot be
+	// encoded for their element must be rejected here, instead of being sent as altered fields.
+	for _, element := range rec.GetOrderedElementList() {
+		if err := checkValueEncodable(element); err != nil {
+			return fmt.Errorf("process: invalid value for element %s: %v", element.GetName(), err)
+		}
+	}
 	if len(rec.GetBuffer()) < int(ep.templatesMap[templateID].minDataRecLen) {
 		return fmt.Errorf("process: Data Record does not pass the min required length (%d) check for template ID %d", ep.templatesMap[templateID].minDataRecLen, templateID)
+	}
+	return nil
+}
+
+// checkValueEncodable returns an error if the value of the element cannot be encoded faithfully
+// at the width of its Information Element (wrong address family, wrong fixed length).
+func checkValueEncodable(element entities.InfoElementWithValue) error {
+	switch element.GetDataType() {
+	case entities.OctetArray:
+		ieLen := element.GetInfoElement().Len
+		valLen := len(element.GetOctetArrayValue())
+		if ieLen < entities.VariableLength && valLen != int(ieLen) {
+			return fmt.Errorf("fixed-length octet array requires %d bytes, got %d", ieLen, valLen)
+		}
+		if valLen > math.MaxUint16 {
+			return fmt.Errorf("octet array is too long: %d bytes", valLen)
+		}
+	case entities.String:
+		if valLen := len(element.GetStringValue()); valLen > math.MaxUint16 {
+			return fmt.Errorf("string is too long: %d bytes", valLen)
+		}
+	case entities.MacAddress:
+		if valLen := len(element.GetMacAddressValue()); valLen != 6 {
+			return fmt.Errorf("MAC address requires 6 bytes, got %d", valLen)
+		}
+	case entities.Ipv4Address:
+		if element.GetIPAddressValue().To4() == nil {
+			return fmt.Errorf("IP %v does not belong to IPv4 address family", element.GetIPAddressValue())
+		}
+	case entities.Ipv6Address:
+		if element.GetIPAddressValue().To16() == nil {
+			return fmt.Errorf("IP %v is not a valid IPv6 address", element.GetIPAddressValue())
+		}
 	}
 	return nil
 }
